@@ -215,12 +215,16 @@ def mask_calls(src, which=None, placeholder="\x00"):
 # --------------------------------------------------------------------------------------------------
 # pool
 # --------------------------------------------------------------------------------------------------
-def _init_worker():
+def _init_worker(base=None):
     try:
         sys.stdout = open(os.devnull, "w")
         sys.stderr = open(os.devnull, "w")
     except Exception:
         pass
+    if base:
+        # every temp dir of the worker (its own and run_inline's) lives under `base`, which the parent removes
+        tempfile.tempdir = base
+        os.environ["TMPDIR"] = base
 
 
 def _guarded(fn, arg):
@@ -241,19 +245,26 @@ def pool_run(fn, args, workers, deadline):
     if not args:
         return results, 0
     pool = None
+    base = tempfile.mkdtemp(prefix="bnd_pool_")
     try:
         import multiprocessing as mp
 
         ctx = mp.get_context("fork")
-        pool = ctx.Pool(processes=max(1, min(workers, len(args))), initializer=_init_worker, maxtasksperchild=400)
+        pool = ctx.Pool(processes=max(1, min(workers, len(args))), initializer=_init_worker, initargs=(base,), maxtasksperchild=400)
     except Exception:
         pool = None
     if pool is None:
         # last resort: in-process (snapshot_env() isolates the state, but this is not the preferred mode)
-        for a in args:
-            if time.time() > deadline:
-                break
-            results.append((a, _guarded(fn, a)))
+        old_tmp = tempfile.tempdir
+        tempfile.tempdir = base
+        try:
+            for a in args:
+                if time.time() > deadline:
+                    break
+                results.append((a, _guarded(fn, a)))
+        finally:
+            tempfile.tempdir = old_tmp
+            shutil.rmtree(base, ignore_errors=True)
         return results, len(args) - len(results)
     try:
         k = max(1, min(6, len(args) // (workers * 10) or 1))
@@ -274,6 +285,7 @@ def pool_run(fn, args, workers, deadline):
     finally:
         pool.terminate()
         pool.join()
+        shutil.rmtree(base, ignore_errors=True)
     return results, len(args) - len(results)
 
 
@@ -286,6 +298,33 @@ def _call_batch(packed):
         keep = copy.deepcopy(arg)  # the function may decorate its argument with unpicklable values
         out.append((keep, _guarded(fn, arg)))
     return out
+
+
+def requested_props(all_props, explicit=None):
+    """Which properties of a multi-property stand-in to run.
+
+    bounded.run_standin(name, pid, tier, seed) calls fn(tier, seed) and does not hand the property id over, so it is taken,
+    in this order, from: the optional third argument of run(), the environment variable BOUNDED_ONLY_PROPS (comma separated),
+    the local variable `pid` of the calling run_standin frame.  Unknown / absent -> all properties."""
+    all_props = list(all_props)
+    if explicit:
+        return [explicit] if explicit in all_props else all_props
+    env = os.environ.get("BOUNDED_ONLY_PROPS")
+    if env:
+        sel = [p for p in all_props if p in env.split(",")]
+        return sel or all_props
+    try:
+        f = sys._getframe(2)
+        for _ in range(4):
+            if f is None:
+                break
+            if f.f_code.co_name == "run_standin" and "pid" in f.f_locals:
+                pid = f.f_locals["pid"]
+                return [pid] if pid in all_props else all_props
+            f = f.f_back
+    except Exception:
+        pass
+    return all_props
 
 
 def short(s, n=300):
